@@ -95,7 +95,7 @@ func runC11(e *emitter, tier string, seed uint64) {
 			s = "1"
 		}
 		e.emit(key, "serve", fmt.Sprint(status), hx(ct), ehS, s, hx(written), f, kind,
-			fmt.Sprint(rec.Code), hx(rec.Result().Header.Get("Content-Type")), hx(rec.Body.String()))
+			fmt.Sprint(rec.Code), hx(rec.Result().Header.Get("Content-Type")), hx(rec.Body.String()), hx(rec.Header().Get("Content-Length")))
 	}
 	for _, st := range statuses {
 		for _, ct := range cts {
